@@ -209,13 +209,18 @@ impl Storage {
                                 .map_err(map_random_access_err)?;
                         }
                     } else {
-                        storage
+                        match storage
                             .del(
                                 info.index,
                                 info.length.expect("When deleting, length must be given"),
                             )
                             .await
-                            .map_err(map_random_access_err)?;
+                        {
+                            // The range starts beyond the end of the store (an earlier
+                            // delete that reached the end truncated it): nothing to delete.
+                            Ok(()) | Err(RandomAccessError::OutOfBounds { .. }) => {}
+                            Err(e) => return Err(map_random_access_err(e)),
+                        }
                     }
                 }
                 StoreInfoType::Size => {
